@@ -83,7 +83,22 @@ func RunTasks(t *testing.T, tape *sim.Tape, m *minify.M, tasks [][]*Op, stick in
 // mode 0: one chunk (empty list). 1: all 1-byte (capped). 2: geometric sizes.
 // 3: includes empty chunks. The remainder always goes in one final chunk.
 func drawChunks(tape *sim.Tape, n int, maxChunks int) []int {
-	mode := tape.Draw(4)
+	mode := tape.Draw(5)
+	if mode == 4 {
+		// sizes around the usual buffer sizes (bufio 4 KiB, io.Copy 32 KiB, 64 KiB), cycled
+		if n < 4000 {
+			mode = 2
+		} else {
+			var out []int
+			left := n
+			for i := 0; i < 64 && left > 0; i++ {
+				sz := []int{4096, 32768, 65536, 512}[tape.Draw(4)] + tape.Draw(3) - 1
+				out = append(out, sz)
+				left -= sz
+			}
+			return out
+		}
+	}
 	if mode == 0 || n == 0 {
 		if mode == 3 {
 			return []int{0}
@@ -117,4 +132,44 @@ func drawChunks(tape *sim.Tape, n int, maxChunks int) []int {
 		}
 	}
 	return out
+}
+
+// sizedDoc builds a well-formed document of the media type whose length is close to a
+// buffer-size boundary (4 KiB, 32 KiB, 64 KiB, ±2) or a random size up to 100 KiB, by
+// repeating a small unit. Size-dependent behaviour of the wrappers and minifiers (internal
+// buffers, thresholds) is not reachable with the small inputs of the test tables.
+func sizedDoc(tape *sim.Tape, mt string) []byte {
+	var target int
+	if tape.Draw(3) != 0 {
+		target = []int{4096, 4096, 8192, 32768, 65536}[tape.Draw(5)] + tape.Draw(5) - 2
+	} else {
+		target = 1 + tape.Draw(70000)
+	}
+	var head, unit, tail string
+	switch mt {
+	case "text/css":
+		unit = "a { b : c ; }\n"
+	case "application/javascript":
+		unit = "x = x + 1 ;\n"
+	case "application/json":
+		head, unit, tail = "[ 0", " , 1.0", " ]"
+	case "text/html":
+		unit = "<p>  x  </p>\n"
+	case "image/svg+xml":
+		head, unit, tail = "<svg>", "<g>  </g>\n", "</svg>"
+	case "text/xml":
+		head, unit, tail = "<r>", "<a> b </a>\n", "</r>"
+	default:
+		unit = "0123456789abcdef"
+	}
+	var b []byte
+	b = append(b, head...)
+	for len(b)+len(tail)+len(unit) <= target {
+		b = append(b, unit...)
+	}
+	// pad to the exact size with spaces (insignificant in all six grammars at this position)
+	for len(b)+len(tail) < target {
+		b = append(b, ' ')
+	}
+	return append(b, tail...)
 }
